@@ -61,6 +61,12 @@ type Scenario struct {
 	CancelU int           `json:"cancelu,omitempty"`
 	CancelD int           `json:"canceld,omitempty"`
 	G       int           `json:"g,omitempty"` // simultaneous executions
+
+	// Gate scenario (C11 "as soon as the predicate's own inputs are
+	// available"): unit GateU-1 parks at its start until unit GateFor-1 has
+	// finished (or a generous timeout expires, which is the violation).
+	GateU   int `json:"gateu,omitempty"`
+	GateFor int `json:"gatefor,omitempty"`
 }
 
 // Event is one entry of the execution log.
@@ -146,6 +152,10 @@ type Env struct {
 	elemOut map[[2]int]Outcome
 	Ems     []*RecEmitter
 
+	gateOnce     sync.Once
+	gateCh       chan struct{}
+	GateTimedOut atomic.Bool
+
 	// Race selects the race-detector flavour (C12): user functions record
 	// nothing and take no lock, so that the harness adds no happens-before
 	// edges between tasks; only the race detector and the final Results
@@ -155,7 +165,7 @@ type Env struct {
 
 // NewEnv builds the environment for one execution.
 func NewEnv(id int, spec *Spec, scn *Scenario) *Env {
-	e := &Env{ID: id, Spec: spec, Scn: scn, Results: map[int]uint64{}, elemOut: map[[2]int]Outcome{}}
+	e := &Env{ID: id, Spec: spec, Scn: scn, Results: map[int]uint64{}, elemOut: map[[2]int]Outcome{}, gateCh: make(chan struct{})}
 	for _, eo := range scn.Elems {
 		e.elemOut[[2]int{eo.Unit, eo.Elem}] = eo.O
 	}
@@ -326,6 +336,15 @@ func (e *Env) begin(unit, elem, idx int, key string, ctx context.Context, ins []
 	case 2:
 		time.Sleep(time.Duration(o.D) * time.Microsecond)
 	}
+	if e.Scn.GateU == unit+1 && e.Scn.GateFor > 0 {
+		tm := time.NewTimer(3 * time.Second)
+		select {
+		case <-e.gateCh:
+		case <-tm.C:
+			e.GateTimedOut.Store(true)
+		}
+		tm.Stop()
+	}
 	if e.Scn.CancelK == CInUnit && e.Scn.CancelU == unit && e.Cancel != nil {
 		e.Cancel()
 		e.CancelSeq.CompareAndSwap(0, Seq())
@@ -374,6 +393,9 @@ func (e *Env) finish(pos int, unit, elem int, o Outcome, canErr bool, outs []uin
 	}
 	e.inflight.Add(-1)
 	end := Seq()
+	if e.Scn.GateFor == unit+1 {
+		e.gateOnce.Do(func() { close(e.gateCh) })
+	}
 	e.mu.Lock()
 	e.Events[pos].End = end
 	e.Events[pos].O = kind
